@@ -83,6 +83,9 @@ func worlds() []world {
 			"t1.example/1":  {a("t1.example", 198, 51, 100, 1)},
 			"a1.example/1":  {a("a1.example", 203, 0, 113, 1)},
 			"o2.example/65": {https("o2.example", 1, "", listE2, 0)},
+			// a comma element without a port (the default port: unprefixed query name)
+			"o3.example/1":  {a("o3.example", 192, 0, 2, 3)},
+			"o3.example/65": {https("o3.example", 1, "", listE2, 0)},
 			// the second comma element uses port 8443: its HTTPS query name is prefixed
 			"_8443._https.o2.example/65": {https("_8443._https.o2.example", 1, "", listE2, 0)},
 		}
@@ -201,6 +204,8 @@ func runOnce(sc scenario, w world, host string, choose vsched.Chooser) (inv []in
 			}
 		case "o2.example":
 			expectECH["192.0.2.2:8443"], expectHost["192.0.2.2:8443"] = listE2, h
+		case "o3.example":
+			expectECH["192.0.2.3:443"], expectHost["192.0.2.3:443"] = listE2, h
 		default:
 			expectECH[el], expectHost[el] = nil, h
 		}
@@ -364,8 +369,81 @@ func check(sc scenario, inv []invocation, before, after, caller *tls.Config, exp
 	return "", ""
 }
 
+// reuse: ONE long-lived Dialer (as a Transport holds one) whose exported settings the application changes between Dials: each
+// Dial goes by the settings of its own time - every sequence of <= 3 Dials over PublicName {"", p.example, q.example, an
+// unencodable 300-octet name} x RequireECH, to a host that has no ECH list of its own.
+func reuse(r *ev.Run) {
+	host := "doh-c17-reuse.test"
+	srv := mux.Server(host)
+	srv.Zone = func(name string, t uint16) dohmem.Answer {
+		if name == "plain.example" && t == 1 {
+			return dohmem.Answer{Records: []dnsref.RR{a("plain.example", 192, 0, 2, 77)}}
+		}
+		return dohmem.Answer{}
+	}
+	res, _ := ech.NewResolver("https://" + host + "/dns-query")
+	type setting struct {
+		pn  string
+		req bool
+	}
+	var settings []setting
+	for _, pn := range []string{"", "p.example", "q.example", strings.Repeat("x", 300)} {
+		for _, req := range []bool{false, true} {
+			settings = append(settings, setting{pn, req})
+		}
+	}
+	enum.Sequences(len(settings), 3, func(seq []int) {
+		if len(seq) == 0 {
+			return
+		}
+		var lists [][]byte
+		var calls int
+		d := &ech.Dialer[*fakeConn]{Resolver: res, MaxConcurrency: 1, ConcurrencyDelay: time.Millisecond, Timeout: 10 * time.Second}
+		d.DialFunc = func(ctx context.Context, network, addr string, tc *tls.Config) (*fakeConn, error) {
+			calls++
+			var l []byte
+			if tc != nil && tc.EncryptedClientHelloConfigList != nil {
+				l = append([]byte{}, tc.EncryptedClientHelloConfigList...)
+			}
+			lists = append(lists, l)
+			return nil, errors.New("connection refused")
+		}
+		desc := ""
+		for step, si := range seq {
+			st := settings[si]
+			d.PublicName, d.RequireECH = st.pn, st.req
+			desc += fmt.Sprintf("[PublicName=%.12q RequireECH=%v]", st.pn, st.req)
+			lists, calls = nil, 0
+			_, err := d.Dial(context.Background(), "tcp", "plain.example:443", nil)
+			what := ""
+			switch {
+			case err == nil:
+				what = "Dial succeeded although every attempt is refused"
+			case len(st.pn) > 255 && calls > 0:
+				what = fmt.Sprintf("PublicName is a %d-octet name from which no config can be built, yet %d attempt(s) were made", len(st.pn), calls)
+			case len(st.pn) > 255:
+			case st.pn != "" && (calls != 1 || lists[0] == nil || publicNameOf(lists[0]) != st.pn):
+				got := "no attempt"
+				if calls > 0 {
+					got = fmt.Sprintf("%d attempt(s), list for public name %q", calls, publicNameOf(lists[0]))
+				}
+				what = fmt.Sprintf("PublicName is %q now: expected one attempt with a bootstrap list for that name, got %s", st.pn, got)
+			case st.pn == "" && st.req && calls > 0:
+				what = "RequireECH is set now and nothing provides a list, yet an attempt was made"
+			case st.pn == "" && !st.req && (calls != 1 || lists[0] != nil):
+				what = fmt.Sprintf("no PublicName now: expected one attempt without a list, got %d attempt(s)", calls)
+			}
+			if what != "" {
+				r.Violation("dialer-reuse:settings-of-an-earlier-dial", fmt.Sprintf("Dial number %d on one Dialer, settings over time %s: %s", step+1, desc, what), desc)
+				break
+			}
+		}
+		r.Eval("reuse:"+fmt.Sprint(seq), "dialer reuse: each Dial goes by the settings of its time")
+	})
+}
+
 func Run(r *ev.Run) {
-	r.Rule("E1 x E2: resolution worlds {no HTTPS; one record with/without ECH; a preferred record whose target has no address followed by one for the origin; two records with ECH on first/second/both (different targets, ports, lists); alias to a service record with ECH; target with own address} x caller config {nil, plain, ServerName set, ECH list set, both} x RequireECH x PublicName {'', p.example} x address {host:port, IP literal, two comma-separated hosts (the second on port 8443)}; per scenario EVERY tree of attempt outcomes {ok, error, ECH rejection without retry configs, rejection with retry configs} at every DialFunc invocation (deviation bound: unlimited quick up to depth of the run; MaxConcurrency 1 so that invocations are sequential). Oracle on the argument log of DialFunc. distinct = distinct (scenario, outcome vector)")
+	r.Rule("E1 x E2: resolution worlds {no HTTPS; one record with/without ECH; a preferred record whose target has no address followed by one for the origin; two records with ECH on first/second/both (different targets, ports, lists); alias to a service record with ECH; target with own address} x caller config {nil, plain, ServerName set, ECH list set, both} x RequireECH x PublicName {'', p.example} x address {host:port, IP literal, two comma-separated hosts (the second on port 8443), two hosts with blanks around the comma the second of which has no port}; per scenario EVERY tree of attempt outcomes {ok, error, ECH rejection without retry configs, rejection with retry configs} at every DialFunc invocation (deviation bound: unlimited quick up to depth of the run; MaxConcurrency 1 so that invocations are sequential). Oracle on the argument log of DialFunc. distinct = distinct (scenario, outcome vector)")
 	r.Assume("expected per-address ECH lists and the set of dialled addresses are written by hand per world from RFC 9460 (independent of ResolveResult.Targets)", "real goroutines of Dial run outside a scheduler; MaxConcurrency=1 makes the invocation log sequential; a failing execution is re-run 5 times and reported only if it fails each time")
 	muxOnce.Do(func() { dns.VerifRoundTripper = mux })
 	ws := worlds()
@@ -374,7 +452,7 @@ func Run(r *ev.Run) {
 		for _, cfg := range [][3]bool{{true, false, false}, {false, false, false}, {false, true, false}, {false, false, true}, {false, true, true}} {
 			for _, req := range []bool{false, true} {
 				for _, pn := range []string{"", "p.example"} {
-					for _, addr := range []string{"o.example:443", "192.0.2.9:443", "o.example:443, o2.example:8443"} {
+					for _, addr := range []string{"o.example:443", "192.0.2.9:443", "o.example:443, o2.example:8443", "o.example:443 , o3.example"} {
 						scs = append(scs, scenario{wi, w.Name, cfg[1], cfg[2], cfg[0], req, pn, addr})
 					}
 				}
@@ -445,6 +523,7 @@ func Run(r *ev.Run) {
 	})
 	r.Set("executions", execs)
 	r.Set("outcome_choice_points", points)
+	reuse(r)
 	// supplementary and sampled; reported separately, never counted as exploration: the DialFunc that NewDialer installs (which
 	// the scenarios above replace by a fake) called concurrently with different TLS configs shares nothing between attempts
 	racepass.Run(r, "./checks/c17/racepass/", "concurrent attempts of the Dialer that NewDialer returns", "8 goroutines x 40 attempts, each with its own tls.Config, against a loopback listener")
